@@ -264,7 +264,7 @@ def register(OPS, drv):
             names.append("!" + type(e).__name__)
         return names
 
-    def rebuild(w, tree, members, prune=True, container=None):
+    def rebuild(w, tree, members, prune=True, container=None, stage_tree=None):
         """(re)create /XT from `tree` and rewrite /XT.zip IN PLACE (same path, same inode) from `members`;
         /only_z holds nothing but a copy of the archive, /only_t nothing but (a link to) the tree, so that
         the menus of the two parents can be compared as a whole"""
@@ -288,7 +288,7 @@ def register(OPS, drv):
             stage = os.path.join(w.tmp, "stage")
             shutil.rmtree(stage, ignore_errors=True)
             os.makedirs(stage)
-            drv.build_tree(stage, list(tree))          # link targets exactly as given
+            drv.build_tree(stage, list(stage_tree if stage_tree is not None else tree))   # link targets as given
             write_zip_infozip(zpath, stage, opts)
             shutil.rmtree(stage, ignore_errors=True)
         elif writer == "raw":
@@ -320,7 +320,7 @@ def register(OPS, drv):
         try:
             w = drv.World({"tree": [{"path": ARC, "kind": "dir"}] + job.get("extra_root", []), "config": job.get("config")})
             pruned = rebuild(w, job.get("tree", []), job["members"], prune=job.get("prune", True),
-                             container=job.get("container"))
+                             container=job.get("container"), stage_tree=job.get("stage"))
             zpath = os.path.join(w.root, ARC + ".zip")
             cwd = os.path.join(w.tmp, "cwd")
             os.makedirs(cwd)
@@ -359,7 +359,8 @@ def register(OPS, drv):
                     r = {"chain": handler_chain(a["sel"], w.config)}
                 elif k == "rewrite":
                     # the site is updated while the server keeps running
-                    r = {"pruned": rebuild(w, a["tree"], a["members"], container=a.get("container"))}
+                    r = {"pruned": rebuild(w, a["tree"], a["members"], container=a.get("container"),
+                                           stage_tree=a.get("stage"))}
                 else:
                     raise ValueError(k)
                 out["actions"].append(r)
